@@ -70,7 +70,9 @@ class Stats(object):
         self.failures.extend(other.failures)
         self.discards += other.discards
         for k, v in other.extra.items():
-            if isinstance(v, (int, float)) and isinstance(self.extra.get(k, 0), (int, float)):
+            if k.startswith("_") and isinstance(v, list):
+                self.extra[k] = self.extra.get(k, []) + v  # per-shard payloads are concatenated
+            elif isinstance(v, (int, float)) and isinstance(self.extra.get(k, 0), (int, float)):
                 self.extra[k] = self.extra.get(k, 0) + v
             else:
                 self.extra.setdefault(k, v)
